@@ -320,6 +320,13 @@ def all_obligations():
     A(Ob(name='encode.group_count', props=['C02', 'C08'], kind='bounded', harness='h_encode_sections.c', entry='h_group_count', bound='blocks of 2..70 symbols (stand-in array); alphabet size symbolic',
          what='generate_prefix_code(): one selector per started group of 50 symbols, 1..6 tables tried, the last group completed with the dummy symbol and nothing written beyond it',
          functions=['generate_prefix_code (group-count section)'], flags=['--unwind', '125', '--unwinding-assertions'], expect=['groups: one selector per started group', 'groups: the last group is completed'], assumed=XS, replayable=True))
+    A(Ob(name='encode.block_header', props=['C02', 'C01', 'C15'], kind='lemma', harness='h_encode_sections.c', entry='h_block_header',
+         what='transmit(): for every running CRC and primary index the block begins with the 48-bit magic, the complemented CRC, a 0 randomisation bit and the 24-bit primary index (bit-exact)',
+         functions=['transmit (block-header section)'], flags=['--unwind', '4', '--unwinding-assertions'], expect=['block header: begins with the 48-bit block magic', 'block header: the randomisation bit is 0'],
+         assumed=XS[:1], replayable=True))
+    A(Ob(name='encode.selector_send', props=['C02', 'C01'], kind='bounded', harness='h_encode_sections.c', entry='h_selector_send', bound='3 selectors (symbolic MTF positions), 2..6 tables, both possible bit-buffer fills at that point',
+         what='transmit(): the 3-bit table count, the 15-bit selector count and one unary code per selector (position in ones, then a zero) are appended bit-exactly',
+         functions=['transmit (selector section)'], flags=['--unwind', '130', '--unwinding-assertions'], expect=['each selector is sent in unary', '3-bit table count'], assumed=XS, replayable=True))
     A(Ob(name='encode.first_length', props=['C02'], kind='lemma', harness='h_encode_sections.c', entry='h_first_length',
          what='transmit(): for every first code length 1..20 and padding 0..3 the 5-bit start value of the first table stays within 1..20 and lies exactly tree_pad steps from the real length',
          functions=['transmit (first-length section)'], flags=['--unwind', '8', '--unwinding-assertions'], expect=['first table: the 5-bit start value stays within'], assumed=XS, replayable=True))
